@@ -1652,7 +1652,7 @@ def tuple_deep(x):
 
 def coq_compare(ctx, all_items, per=1400):
     items = []
-    hdr = ("From Coq Require Import List NArith. Import ListNotations.\n"
+    hdr = ("From Coq Require Import List NArith ZArith. Import ListNotations.\n"
            "From PV Require Import Common.Cases C17.Model.\nLocal Open Scope N_scope.\n")
     fams = [
         ([c for c in all_items if c[0]["kind"] not in ("ice", "ice2", "race")], coq_case, "check_case",
